@@ -406,6 +406,11 @@ class Walker:
                             st["vecs"][name] = self.eval_vec(init, st)
                         elif init["k"] == "Call" and init["f"].get("path") in ("Vec::new", "Vec::with_capacity"):
                             st["vecs"][name] = []
+                        elif init["k"] == "MethodCall" and init["method"] in ("collect", "clone", "to_vec"):
+                            # `let saved: Vec<Value> = popped.iter().rev().cloned().collect();` -- a named copy of a vector
+                            v_ = self.eval_vec(init, st)
+                            if v_ is not None:
+                                st["vecs"][name] = v_
                     elif has_pop(init) and st["popped"] is not None:
                         st["popped"].append("<pattern>")
                 if s.get("else") is not None:
